@@ -102,6 +102,8 @@ fn replay_one(out: &mut Out, op: &str, a: &[Vec<u8>]) {
         "region_raw" => out.case(op, &refs, || subtags::region_raw(a0)),
         "variant_raw" => out.case(op, &refs, || subtags::variant_raw(a0)),
         "langid" => out.case(op, &refs, || langid::langid(a0)),
+        "par_langid" => out.case(op, &refs, || common::par_one_of(a0, langid::par_inputs(), langid::langid)),
+        "par_locale" => out.case(op, &refs, || common::par_one_of(a0, langid::par_inputs(), locale::locale)),
         "li_canonicalize" => out.case(op, &refs, || langid::li_canonicalize(a0)),
         "li_roundtrip" => out.case(op, &refs, || langid::li_roundtrip(a0)),
         "li_iter" => out.case(op, &refs, || langid::li_iter(a0, a1 == b"1")),
@@ -136,6 +138,8 @@ fn replay_one(out: &mut Out, op: &str, a: &[Vec<u8>]) {
         "li_meta" => out.case(op, &refs, || locale::li_meta(a0, a1)),
         "maximize" => out.case(op, &refs, || likely::maximize(a0, a1, a2)),
         "minimize" => out.case(op, &refs, || likely::minimize(a0, a1, a2)),
+        "par_maximize" => out.case(op, &refs, || likely::par_one(a0, a1, a2, true)),
+        "par_minimize" => out.case(op, &refs, || likely::par_one(a0, a1, a2, false)),
         "li_maximize" => out.case(op, &refs, || likely::li_change(a0, true)),
         "li_minimize" => out.case(op, &refs, || likely::li_change(a0, false)),
         "direction_likely" | "direction_plain" => out.case(likely::DIR_OP, &refs, || likely::direction(a0)),
